@@ -4717,3 +4717,235 @@ mod tests {
 		assert_eq!(cltv, trampoline_cltv_expiry + first_hop_delta);
 	}
 }
+
+/// Verification hook H3 (add-only, compiled only with the `_verif_hooks` feature; also needs
+/// `_test_utils` because [`DecodedOnionFailure`] only carries the decoded failure code and data
+/// under that feature).
+///
+/// Thin public wrappers around the `pub(super)`/`pub(crate)` onion helpers, so that an external
+/// harness can (a) decode one onion layer without the relay-policy checks of
+/// [`peel_payment_onion`], (b) build, re-wrap and decode failure packets and (c) build and decode
+/// fulfil attribution data exactly as `ChannelManager` does. No wrapper contains logic of its own
+/// beyond converting crate-private types to public ones.
+///
+/// [`peel_payment_onion`]: crate::ln::onion_payment::peel_payment_onion
+#[cfg(all(feature = "_verif_hooks", any(test, feature = "_test_utils")))]
+pub mod verif_hooks {
+	use super::*;
+	use crate::ln::channelmanager::PaymentId;
+	use crate::types::payment::PaymentSecret;
+
+	/// Public mirror of the non-trampoline variants of the crate-private `Hop`.
+	pub enum VerifHop {
+		/// `Hop::Forward`
+		Forward {
+			/// Next channel.
+			short_channel_id: u64,
+			/// Amount to forward.
+			amt_to_forward: u64,
+			/// Outgoing expiry.
+			outgoing_cltv_value: u32,
+			/// Shared secret of this hop.
+			shared_secret: [u8; 32],
+			/// HMAC of the next packet.
+			next_hop_hmac: [u8; 32],
+			/// Hop data of the next packet.
+			new_packet_bytes: Vec<u8>,
+		},
+		/// `Hop::Receive`
+		Receive {
+			/// Payment secret and total amount.
+			payment_data: Option<(PaymentSecret, u64)>,
+			/// Payment metadata.
+			payment_metadata: Option<Vec<u8>>,
+			/// Keysend preimage.
+			keysend_preimage: Option<PaymentPreimage>,
+			/// Custom TLVs.
+			custom_tlvs: Vec<(u64, Vec<u8>)>,
+			/// Amount the sender intended for this HTLC.
+			sender_intended_htlc_amt_msat: u64,
+			/// Expiry the sender intended for this HTLC.
+			cltv_expiry_height: u32,
+			/// Shared secret of this hop.
+			shared_secret: [u8; 32],
+		},
+		/// Any other variant (blinded, dummy, trampoline), by name.
+		Other(&'static str),
+	}
+
+	/// Calls `decode_next_payment_hop`; `Err` carries (is_malformed, reason).
+	pub fn verif_decode_next_payment_hop<NS: NodeSigner>(
+		hop_pubkey: &PublicKey, hop_data: &[u8], hmac_bytes: [u8; 32], payment_hash: PaymentHash,
+		blinding_point: Option<PublicKey>, node_signer: NS,
+	) -> Result<VerifHop, (bool, LocalHTLCFailureReason)> {
+		match decode_next_payment_hop(
+			Recipient::Node,
+			hop_pubkey,
+			hop_data,
+			hmac_bytes,
+			payment_hash,
+			blinding_point,
+			node_signer,
+		) {
+			Ok(Hop::Forward { next_hop_data, shared_secret, next_hop_hmac, new_packet_bytes }) => {
+				Ok(VerifHop::Forward {
+					short_channel_id: next_hop_data.short_channel_id,
+					amt_to_forward: next_hop_data.amt_to_forward,
+					outgoing_cltv_value: next_hop_data.outgoing_cltv_value,
+					shared_secret: shared_secret.secret_bytes(),
+					next_hop_hmac,
+					new_packet_bytes: new_packet_bytes.to_vec(),
+				})
+			},
+			Ok(Hop::Receive { hop_data, shared_secret }) => Ok(VerifHop::Receive {
+				payment_data: hop_data.payment_data.map(|d| (d.payment_secret, d.total_msat)),
+				payment_metadata: hop_data.payment_metadata,
+				keysend_preimage: hop_data.keysend_preimage,
+				custom_tlvs: hop_data.custom_tlvs,
+				sender_intended_htlc_amt_msat: hop_data.sender_intended_htlc_amt_msat,
+				cltv_expiry_height: hop_data.cltv_expiry_height,
+				shared_secret: shared_secret.secret_bytes(),
+			}),
+			Ok(Hop::BlindedForward { .. }) => Ok(VerifHop::Other("BlindedForward")),
+			Ok(Hop::BlindedReceive { .. }) => Ok(VerifHop::Other("BlindedReceive")),
+			Ok(Hop::Dummy { .. }) => Ok(VerifHop::Other("Dummy")),
+			Ok(_) => Ok(VerifHop::Other("Trampoline")),
+			Err(OnionDecodeErr::Malformed { reason, .. }) => Err((true, reason)),
+			Err(OnionDecodeErr::Relay { reason, .. }) => Err((false, reason)),
+		}
+	}
+
+	/// The BOLT 4 failure code of `reason` (`LocalHTLCFailureReason::failure_code`).
+	pub fn verif_failure_code(reason: LocalHTLCFailureReason) -> u16 {
+		reason.failure_code()
+	}
+
+	/// `build_failure_packet`: the failure as the erring hop encrypts it, with an explicit hold
+	/// time and without the per-reason data-shape debug assertions of `HTLCFailReason::reason`.
+	pub fn verif_build_failure_packet(
+		shared_secret: &[u8; 32], reason: LocalHTLCFailureReason, failure_data: &[u8],
+		hold_time: u32,
+	) -> (Vec<u8>, Option<AttributionData>) {
+		let p = build_failure_packet(shared_secret, reason, failure_data, hold_time);
+		(p.data, p.attribution_data)
+	}
+
+	/// `HTLCFailReason::reason(..).get_encrypted_failure_packet(..)`: what a hop that fails an
+	/// HTLC itself sends back (`secondary_shared_secret` = phantom/trampoline inner secret).
+	pub fn verif_fail_htlc_locally(
+		reason: LocalHTLCFailureReason, failure_data: Vec<u8>, incoming_shared_secret: &[u8; 32],
+		secondary_shared_secret: &Option<[u8; 32]>,
+	) -> (Vec<u8>, Option<AttributionData>) {
+		let p = HTLCFailReason::reason(reason, failure_data)
+			.get_encrypted_failure_packet(incoming_shared_secret, secondary_shared_secret);
+		(p.data, p.attribution_data)
+	}
+
+	fn verif_fail_msg(
+		reason: &[u8], attribution_data: &Option<AttributionData>,
+	) -> msgs::UpdateFailHTLC {
+		msgs::UpdateFailHTLC {
+			channel_id: ChannelId([0; 32]),
+			htlc_id: 0,
+			reason: reason.to_vec(),
+			attribution_data: attribution_data.clone(),
+		}
+	}
+
+	/// `HTLCFailReason::from_msg(..)` + `set_hold_time` + `get_encrypted_failure_packet`: what a
+	/// relaying hop sends back after receiving an `update_fail_htlc` with the given `reason` and
+	/// `attribution_data` from its next hop.
+	pub fn verif_relay_failure(
+		reason: &[u8], attribution_data: &Option<AttributionData>, hold_time: Option<u32>,
+		incoming_shared_secret: &[u8; 32],
+	) -> (Vec<u8>, Option<AttributionData>) {
+		let mut reason = HTLCFailReason::from_msg(&verif_fail_msg(reason, attribution_data));
+		if let Some(hold_time) = hold_time {
+			reason.set_hold_time(hold_time);
+		}
+		let p = reason.get_encrypted_failure_packet(incoming_shared_secret, &None);
+		(p.data, p.attribution_data)
+	}
+
+	/// Public mirror of `DecodedOnionFailure`.
+	#[derive(Clone, Debug, PartialEq, Eq)]
+	pub struct VerifDecodedFailure {
+		/// See `DecodedOnionFailure::network_update`.
+		pub network_update: Option<NetworkUpdate>,
+		/// See `DecodedOnionFailure::short_channel_id`.
+		pub short_channel_id: Option<u64>,
+		/// See `DecodedOnionFailure::payment_failed_permanently`.
+		pub payment_failed_permanently: bool,
+		/// See `DecodedOnionFailure::failed_within_blinded_path`.
+		pub failed_within_blinded_path: bool,
+		/// See `DecodedOnionFailure::hold_times`.
+		pub hold_times: Vec<u32>,
+		/// See `DecodedOnionFailure::onion_error_code`.
+		pub onion_error_code: Option<LocalHTLCFailureReason>,
+		/// See `DecodedOnionFailure::onion_error_data`.
+		pub onion_error_data: Option<Vec<u8>>,
+	}
+
+	fn verif_convert(d: DecodedOnionFailure) -> VerifDecodedFailure {
+		VerifDecodedFailure {
+			network_update: d.network_update,
+			short_channel_id: d.short_channel_id,
+			payment_failed_permanently: d.payment_failed_permanently,
+			failed_within_blinded_path: d.failed_within_blinded_path,
+			hold_times: d.hold_times,
+			onion_error_code: d.onion_error_code,
+			onion_error_data: d.onion_error_data,
+		}
+	}
+
+	fn verif_source(path: &Path, session_priv: &SecretKey) -> HTLCSource {
+		HTLCSource::OutboundRoute {
+			path: path.clone(),
+			session_priv: *session_priv,
+			first_hop_htlc_msat: 0,
+			payment_id: PaymentId([0; 32]),
+			bolt12_invoice: None,
+		}
+	}
+
+	/// `HTLCFailReason::from_msg(..).decode_onion_failure(..)` for an outbound payment over `path`
+	/// built with `session_priv`: what the sender learns from a returned `update_fail_htlc` with
+	/// the given `reason` and `attribution_data`.
+	pub fn verif_decode_onion_failure<T: secp256k1::Signing, L: Logger>(
+		secp_ctx: &Secp256k1<T>, logger: &L, path: &Path, session_priv: &SecretKey, reason: &[u8],
+		attribution_data: &Option<AttributionData>,
+	) -> VerifDecodedFailure {
+		let source = verif_source(path, session_priv);
+		let reason = HTLCFailReason::from_msg(&verif_fail_msg(reason, attribution_data));
+		verif_convert(reason.decode_onion_failure(secp_ctx, logger, &source))
+	}
+
+	/// `HTLCFailReason::reason(..).decode_onion_failure(..)`: a failure generated locally or by
+	/// the first hop's `update_fail_malformed_htlc`.
+	pub fn verif_decode_local_onion_failure<T: secp256k1::Signing, L: Logger>(
+		secp_ctx: &Secp256k1<T>, logger: &L, path: &Path, session_priv: &SecretKey,
+		reason: LocalHTLCFailureReason, failure_data: Vec<u8>,
+	) -> VerifDecodedFailure {
+		let source = verif_source(path, session_priv);
+		verif_convert(
+			HTLCFailReason::reason(reason, failure_data)
+				.decode_onion_failure(secp_ctx, logger, &source),
+		)
+	}
+
+	/// `process_fulfill_attribution_data`: the attribution data a hop attaches to
+	/// `update_fulfill_htlc` (`downstream` = what it received from its next hop, if anything).
+	pub fn verif_process_fulfill_attribution_data(
+		downstream: Option<AttributionData>, shared_secret: &[u8; 32], hold_time: u32,
+	) -> AttributionData {
+		process_fulfill_attribution_data(downstream, shared_secret, hold_time)
+	}
+
+	/// `decode_fulfill_attribution_data`: the hold times the sender reads from a fulfil.
+	pub fn verif_decode_fulfill_attribution_data<T: secp256k1::Signing, L: Logger>(
+		secp_ctx: &Secp256k1<T>, logger: &L, path: &Path, session_priv: &SecretKey,
+		attribution_data: AttributionData,
+	) -> Vec<u32> {
+		decode_fulfill_attribution_data(secp_ctx, logger, path, session_priv, attribution_data)
+	}
+}
